@@ -238,7 +238,7 @@ Definition pre (c : ecmd) (ins : list arr) : option err :=
   | AMinusB | ADividedByB => pair_in ins |> validate_shapes ins
   | Sum | Multiply | Minimum | Maximum | Mean | FuzzyUnion | FuzzyOr | FuzzyAnd => validate_shapes ins
   | WeightedSum ws | WeightedMean ws | FuzzyWeightedUnion ws => weights_ok ws ins |> validate_shapes ins
-  | Normalize _ _ => single ins |> need_minmax vals
+  | Normalize _ _ => single ins          (* no valid cell: minimum and maximum are the masked constant, every result cell is missing *)
   | NormalizeZScore _ _ _ _ _ | CvtToFuzzyZScore _ _ _ => single ins
   | NormalizeCat raws normals _ | CvtToFuzzyCat raws normals _ => single ins |> cat_checks raws normals
   | NormalizeCurve raws normals | CvtToFuzzyCurve raws normals => single ins |> curve_checks raws normals
@@ -250,7 +250,8 @@ Definition pre (c : ecmd) (ins : list arr) : option err :=
       single ins |> match d with
                     | DirBad => Some EInvalidDirection
                     | _ => match ctf_thresholds t f d vals with
-                           | None => Some EUnexpected
+                           | None =>       (* no valid cell: the default thresholds are the masked constant, which equals nothing *)
+                               match t, f with Some tv, Some fv => if Qeq_bool tv fv then Some EInvalidThresholds else None | _, _ => None end
                            | Some (tv, fv) => if Qeq_bool tv fv then Some EInvalidThresholds else None
                            end
                     end
@@ -302,7 +303,7 @@ Definition colf (c : ecmd) (ins : list arr) : list Q -> option Q :=
   | CvtToFuzzy t f d =>
       match ctf_thresholds t f d vals with
       | Some (tv, fv) => u1 (fun x => ofz (lin tv 1 fv (-1) x))
-      | None => fun _ => None
+      | None => u1 (fun _ => Some 0)        (* no valid cell at all: never used, every column has a missing cell *)
       end
   | CvtToFuzzyZScore sigma t f => u1 (fun x => ofz (zscore_f sigma mu (opt 1 t) (opt (-1) f) (-1) 1 x))
   | CvtToFuzzyCat raws fuzzies d => u1 (fun x => Some (fz (lookup_cat raws fuzzies d x)))
